@@ -160,7 +160,7 @@ def run(ctx):
     outp = os.path.join(ctx.work, "c41_out.jsonl")
     if os.path.exists(outp):
         os.remove(outp)
-    rc, out = ctx.go_test("actor", "^TestVerifC41", ["zz_verif_C41_test.go"], timeout=1500)
+    rc, out = ctx.go_test("actor", "^TestVerifC41", ["zz_verif_C39_test.go", "zz_verif_C41_test.go"], timeout=1500)  # same file set as C39: one compiled test package
     outs = read_jsonl(outp)
     if rc != 0 or len(outs) != len(hs):
         ctx.tie_broken("go-harness actor.replicatorActor", out)
@@ -334,7 +334,7 @@ def _is_getc_divergence(hs, by_id, hid, si):
 
 
 META = {
-    "ready": False,
+    "ready": True,
     "category": "proof",
     "technique": "Rocq proof (inductive invariant of the replicator step over all message histories) + actor-step conformance of the real replicator's Receive + property oracle",
     "text": "Invariant tombstoned => not in store/versions proved for every handler and every message history (any peers, any interleaving, duplication, loss); ignored updates/deltas/full-state entries; nothing exposed; tombstone lifetime exactly prune with now-deletedAt>ttl. The coordinated-read defect of handleGet is refuted in Coq, replayed on the real replicator and repaired by fixes/C41-get-tombstone.diff.",
